@@ -2801,10 +2801,13 @@ class AggregateBase(UnitsManaged, Saveable, OpenSystem):
                     HH = self.get_Hamiltonian()
                     Ndim = HH.dim
                     re = numpy.zeros(Ndim-start, dtype=numpy.float64)
-                    # we need to subtract reorganization energies
+                    # we need to subtract reorganization energies; with
+                    # vibrational modes several states of the band belong
+                    # to the same site (elinds: electronic state of a state)
                     for i in range(n1ex):
                         re[i] = \
-                        self.sbi.get_reorganization_energy(i)
+                        self.sbi.get_reorganization_energy(
+                                                self.elinds[start+i]-1)
                 else:
                     HH = relaxation_hamiltonian
                     Ndim = HH.dim
